@@ -1,6 +1,6 @@
 """Per-property static text used in the evidence files (levels, assumptions, explanations)."""
 
-LEVELS = {"C11": "other", "C20": "other", "C01": "other", "C03": "other", "C05": "exploration", "C07": "other", "C13": "other", "C14": "exploration", "C15": "other", "C16": "other", "C18": "other"}  # property -> evidence level; default 'proof'
+LEVELS = {"C11": "other", "C20": "other", "C01": "other", "C03": "other", "C05": "other", "C07": "other", "C13": "other", "C14": "exploration", "C15": "other", "C16": "other", "C18": "other"}  # property -> evidence level; default 'proof'
 
 TRUSTED_COMMON = [
     "pyvc engine (this repository's own VC generator over Python's ast module): its model of Python semantics for the subset used",
@@ -17,6 +17,7 @@ ASSUMPTIONS_COMMON = [
 
 PROP_ASSUMPTIONS = {}
 EXPLAIN = {
+    "C05": "Mixed: combine_composition, the composition branch of Labware.add, get_well_composition and the removal frame are proved together with the mixing-algebra lemmas (coverage.obligations/discharged); operation histories, conservation across labware and the naming rules are explored by the bounded exact-arithmetic monitor (coverage.bounded).",
     "C18": "Mixed: optimize_partition_by (all cases) and partition_by_column for 0-3 symbolic triples are proved (coverage.obligations/discharged); longer lists are explored by the bounded monitor (coverage.bounded).",
     "C15": "Mixed: WellShifter and WellRotator are proved (coverage.obligations/discharged, incl. inverse lemmas); WellRandomizer is explored by the bounded monitor (coverage.bounded).",
     "C07": "Mixed: both transfer bodies are proved on 1-triple (quick) / 2-triple (thorough) symbolic shapes without splitting (coverage.obligations/discharged); longer lists, permutations, large-volume splitting and break records are explored by the bounded monitor (coverage.bounded).",
